@@ -45,7 +45,7 @@ from urwid.display import AttrSpec, RealTerminal
 from urwid.display.escape import ALT_DEC_SPECIAL_CHARS, DEC_SPECIAL_CHARS
 from urwid.widget import Sizing, Widget
 
-from .display.common import _BASIC_COLORS, _color_desc_256, _color_desc_true
+from .display.common import _BASIC_COLORS, _COLOR_VALUES_256, _color_desc_256, _color_desc_true
 
 if typing.TYPE_CHECKING:
     from collections.abc import Callable, Iterable, Mapping, Sequence
@@ -1101,22 +1101,28 @@ class TermCanvas(Canvas):
 
         idx = 0
         colors = prev_colors
+        # colors read back from a non true color attrspec are palette indexes
+        fg_is_index = bg_is_index = prev_colors != 2**24
 
         while idx < len(attrs):
             attr = attrs[idx]
             if 30 <= attr <= 37:
                 fg = attr - 30
+                fg_is_index = True
                 colors = max(16, colors)
             elif 40 <= attr <= 47:
                 bg = attr - 40
+                bg_is_index = True
                 colors = max(16, colors)
             # AIXTERM bright color spec
             # https://en.wikipedia.org/wiki/ANSI_escape_code
             elif 90 <= attr <= 97:
                 fg = attr - 90 + 8
+                fg_is_index = True
                 colors = max(16, colors)
             elif 100 <= attr <= 107:
                 bg = attr - 100 + 8
+                bg_is_index = True
                 colors = max(16, colors)
             elif attr in {38, 48}:
                 if idx + 2 < len(attrs) and attrs[idx + 1] == 5:
@@ -1124,9 +1130,9 @@ class TermCanvas(Canvas):
                     color = min(attrs[idx + 2], 255)
                     colors = max(256, colors)
                     if attr == 38:
-                        fg = color
+                        fg, fg_is_index = color, True
                     else:
-                        bg = color
+                        bg, bg_is_index = color, True
                     idx += 2
                 elif idx + 4 < len(attrs) and attrs[idx + 1] == 2:
                     # 24 bit color specification
@@ -1135,9 +1141,9 @@ class TermCanvas(Canvas):
                     color = (red << 16) + (green << 8) + blue
                     colors = 2**24
                     if attr == 38:
-                        fg = color
+                        fg, fg_is_index = color, False
                     else:
-                        bg = color
+                        bg, bg_is_index = color, False
                     idx += 4
             elif attr == 39:
                 # set default foreground color
@@ -1178,6 +1184,15 @@ class TermCanvas(Canvas):
 
         if "bold" in attributes and colors == 16 and fg is not None and fg < 8:
             fg += 8
+
+        if colors == 2**24:
+            # a true color attrspec holds rgb values only: look up palette indexes
+            if fg is not None and fg_is_index:
+                red, green, blue = _COLOR_VALUES_256[fg]
+                fg = (red << 16) + (green << 8) + blue
+            if bg is not None and bg_is_index:
+                red, green, blue = _COLOR_VALUES_256[bg]
+                bg = (red << 16) + (green << 8) + blue
 
         def _defaulter(color: int | None, colors: int) -> str:
             if color is None:
